@@ -82,8 +82,12 @@ def combo_cases():
     modes = ["", "\x1b[?6h", "\x1b[?6l", "\x1b[6l", "\x1b[6h", "\x1b[?7l", "\x1b[4h", "\x1b[?69h"]
     tails = ["A", "\n", "A\n", "\x1bM", "\x1bD"]
     for big in ("65536", "1000000", "2147483647"):
-        margins = ["", f"\x1b[1;{big}r", f"\x1b[{big};{big}r", f"\x1b[?69h\x1b[1;{big}s"]
+        # every control function that stores a margin (DECSTBM, DECSLRM, the 4-parameter DECSTBM, the CSI = Ps ; n m margin setters)
+        margins = ["", f"\x1b[1;{big}r", f"\x1b[{big};{big}r", f"\x1b[?69h\x1b[1;{big}s", f"\x1b[1;25;1;{big}r", f"\x1b[1;{big};1;{big}r",
+                   f"\x1b[=1;{big}m", f"\x1b[=2;{big}m", f"\x1b[=0;{big}m", f"\x1b[=3;{big}m"]
+        # every control function that takes a count: motions, and the editing functions whose work depends on the area the margins leave
         motions = [f"\x1b[{big};{big}H", f"\x1b[{big}d", f"\x1b[{big}B", f"\x1b[{big}e", f"\x1b[{big}E", f"\x1b[{big}G", f"\x1b[{big}C", f"\x1b[{big}a", f"\x1b[{big}`", f"\x1b[{big}A"]
+        motions += [f"\x1b[{big}{f}" for f in ("X", "@", "P", "b", "L", "M", "S", "T", "I", "Z", " @", " A")] + [f"A\x1b[{big}b", f"\x1b[{big}C\x1b[{big}X"]
         for m in modes:
             for r in margins:
                 for v in motions:
@@ -133,7 +137,7 @@ def run():
         cases.append(("ansi", seq, 0))
     combos = combo_cases()
     if not thorough:
-        combos = rng.sample(combos, 1600)
+        combos = rng.sample(combos, 4000)
     for seq in combos:
         cases.append(("ansi", seq, 0))
     # sixel payloads exported by TLC from SixelDecoder.tla (every payload of <= 4 tokens; the alphabet contains the repeat
